@@ -291,7 +291,7 @@ static void apply(void *vs, int op, int check)
 	{
 		int n = start_fill[a];
 		s->started = 1;
-		s->cap_size = n < 256 ? 4096 : 5 * n;
+		s->cap_size = n < 256 ? 4096 : n < 8000 ? 5 * n / 2 : 4 * n;
 		/* filled in uneven pieces so that the doublings happen at different fill levels */
 		while (s->len < n)
 		{
